@@ -236,6 +236,19 @@ func c18(g *Gen) {
 				}
 			}
 		}
+		chain := g.Chance(0.45)
+		if chain {
+			// an indirect importer: r/s -> q -> p (and nothing else importing p directly from r/s)
+			graph["ex.test/q"] = append(graph["ex.test/q"], c18Pkg)
+			graph["ex.test/r/s"] = append(graph["ex.test/r/s"], "ex.test/q")
+			var keep []string
+			for _, x := range graph["ex.test/r/s"] {
+				if x != c18Pkg {
+					keep = append(keep, x)
+				}
+			}
+			graph["ex.test/r/s"] = keep
+		}
 		// directory levels from the package dir upwards
 		depth := 1 + g.R.Intn(4)
 		type lvl struct {
@@ -252,8 +265,16 @@ func c18(g *Gen) {
 				for k := g.R.Intn(3); k > 0; k-- {
 					f.Rules = append(f.Rules, g.c18rule(false))
 				}
-				for k := g.R.Intn(3); k > 0; k-- {
-					f.Inverse = append(f.Inverse, g.c18rule(true))
+				ninv := g.R.Intn(3)
+				if chain {
+					ninv = 1 + g.R.Intn(4)
+				}
+				for k := ninv; k > 0; k-- {
+					r := g.c18rule(true)
+					if chain && g.Chance(0.6) {
+						r.Sel = g.Pick([]string{"ex[.]test", ".*", "^ex[.]test/r"})
+					}
+					f.Inverse = append(f.Inverse, r)
 				}
 				l.file = f
 			}
@@ -262,6 +283,9 @@ func c18(g *Gen) {
 		levels = append(levels, lvl{name: "top", gomod: true}) // the tree always has a stopping directory
 		dir := filepath.Join(root, fmt.Sprintf("t%d", i))
 		cls := []string{"verify"}
+		if chain {
+			cls = append(cls, "indirect-importer-chain")
+		}
 		stopAt := -1
 		for d := len(levels) - 1; d >= 0; d-- {
 			dir = filepath.Join(dir, levels[d].name)
@@ -304,6 +328,17 @@ func c18(g *Gen) {
 			}
 			lv = append(lv, list(atom(l.name), fs, boolS(l.gomod)))
 			cur = filepath.Dir(cur)
+		}
+		for k, v := range graph {
+			seen := map[string]bool{}
+			var d []string
+			for _, x := range v {
+				if !seen[x] {
+					seen[x] = true
+					d = append(d, x)
+				}
+			}
+			graph[k] = d
 		}
 		in := list(list(lv...), c18graphSexp(graph), atom(c18Pkg))
 		ctx := &generator.Context{Universe: c18universe(graph, map[string]string{c18Pkg: dir})}
